@@ -24,6 +24,7 @@ CLAIMED["C17"] = ("partial", "Debug formatting never waits in any world and dist
 CLAIMED["C01"] = ("partial", "C01_no_deadlock / C01_no_self_wait: in every Level-B state satisfying the rank discipline (a decidable test, proved sound, with the scenario's address-based rank proved bounded) some thread can move, for any number of threads, programs, locks and both grant policies; the test is evaluated in every state of every explored schedule of the model and the interleaved model is compared event by event with the implementation under a deterministic scheduler; unproved: that all reachable states of the API programs satisfy the discipline", "7 C01", "rank argument (induction on bound - rank) + executable small-step model + differential execution under a deterministic scheduler")
 CLAIMED["C02"] = ("partial (raw-lock exclusion is the specification)", "guard / closure positions denote exactly the declared leaves and those are exactly the locks acquired; closure runs between acquisition and release; interleaved monitor (data only under a hold of that very lock, versions continuous) on model and implementation with a scheduling point at every data access", "7 C02", "structural induction over shapes + differential execution with tagged, versioned payloads")
 CLAIMED["C09"] = ("full for the safety half and conditional completion (sequential big-step); interleaved half by correspondence", "C09_retry_blocks_holding_nothing: from any hold table the retrying acquisition either finishes holding every member once or waits holding a proper prefix of ONE member (nothing for plain locks); interleaved monitor on what every waiting thread holds", "7 C09", "induction over the member list with the source's bookkeeping + differential execution")
+CLAIMED["C12"] = ("partial; known findings D12a, D12b, D12c", "single-lock theorems in any world (the panicking operation kills exactly that lock, propagates; a killed lock refuses try without touching the raw lock and panics a blocking acquisition; kill flags are never cleared); for collections the model reproduces the source's unwind bookkeeping and the four-clause monitor runs on model and implementation with a one-shot panic at every raw-operation index; three defect classes are refuted on witnesses and listed as known findings", "7 C12, 11", "case analysis per operation + differential fault injection + vm_compute refutation witnesses")
 PENDING = {}
 props = [json.loads(l) for l in open(os.path.join(V, "properties.jsonl"))]
 checks, na = [], []
